@@ -608,6 +608,9 @@ class GIRParser(object):
         for ctor in self._find_children(node, _corens('constructor')):
             obj.constructors.append(
                 self._parse_function_common(ctor, ast.Function, obj))
+        for func in self._find_children(node, _corens('function')):
+            obj.static_methods.append(
+                self._parse_function_common(func, ast.Function, obj))
         for callback in self._find_children(node, _corens('callback')):
             obj.fields.append(
                 self._parse_function_common(callback, ast.Callback, obj))
